@@ -131,6 +131,37 @@ def dt_pool(rng, nrand=6):
     return uniq(b)
 
 
+UNITS_US = [1, 1000, 10 ** 6, 6 * 10 ** 7, 36 * 10 ** 8, 864 * 10 ** 8]   # µs, ms, s, min, h, day
+
+
+def band_values(rng, lo, hi, per=3, units=UNITS_US):
+    """Values around the places where a narrowing cast, a 32-bit fast path or a trip through f64 would go wrong: for every
+    unit u (µs … day) and every b in 2^15, 2^16, 2^24, 2^31, 2^32, 2^52, 2^53 the threshold b·u with its neighbours and
+    random values within a day / within 64 units of it, both signs; plus log-uniform magnitudes (every binade from 2^20
+    to 2^62) with the sub-second residues at which rounding/flooring to a second or a minute decides (0, 1, 499999,
+    500000, 500001, 999998, 999999).  None of these are range limits, epoch neighbours or round numbers."""
+    out = []
+    for u in units:
+        for b in (1 << 15, 1 << 16, 1 << 24, 1 << 31, 1 << 32, 1 << 52, 1 << 53):
+            t = b * u
+            for sgn in (1, -1):
+                out += [sgn * (t + d) for d in (-1, 0, 1)]
+                for _ in range(per):
+                    out.append(sgn * (t + rng.range(0, 864 * 10 ** 8)))
+                    out.append(sgn * (t - rng.range(1, 864 * 10 ** 8)))
+                    out.append(sgn * (t + rng.range(0, 64 * u)))
+    for k in range(20, 63):
+        for _ in range(per):
+            m = (1 << k) + rng.range(0, (1 << k) - 1)
+            out += [m, -m]
+            for r in (0, 1, 499999, 500000, 500001, 999998, 999999):
+                v = m - m % 10 ** 6 + r
+                out += [v, -v]
+            v = m - m % (6 * 10 ** 7)
+            out += [v - 1, -(v - 1), v + 59999999, -(v + 59999999)]
+    return uniq([x for x in out if lo <= x <= hi])
+
+
 I32_MIN, I32_MAX = -(1 << 31), (1 << 31) - 1
 I64_MIN, I64_MAX = -(1 << 63), (1 << 63) - 1
 U32_MAX = (1 << 32) - 1
